@@ -11,6 +11,8 @@ import (
 	"os"
 	"path/filepath"
 	"runtime"
+	"runtime/debug"
+	"strconv"
 	"strings"
 	"sync"
 	"testing"
@@ -168,6 +170,7 @@ type world struct {
 
 	liveFS  *vfs.MemFS
 	snapDir string
+	lastDir *dirTree // previous copy of snapDir (content reuse in readDirTree)
 	db      *raftlog.DB
 	hookFS  vfs.FS
 
@@ -208,6 +211,8 @@ func tmpBase() string {
 	return os.TempDir()
 }
 
+var gcOff sync.Once
+
 func runC14(t *testing.T, r *simkit.Run) {
 	c := drawCfg(r)
 	r.Config = map[string]any{"scopes": c.Scopes, "steps": c.Steps, "short": c.Short, "nofaults": c.NoFaults, "torn": c.Torn,
@@ -224,10 +229,14 @@ func runC14(t *testing.T, r *simkit.Run) {
 	// (sstable.writeTaskPool); a channel made in one bubble must not be used in
 	// the next ("send on synctest channel from outside bubble"). Two GC cycles
 	// empty every sync.Pool (primary and victim cache).
-	if os.Getenv("RLS_NOGC") == "" {
-		runtime.GC()
-		runtime.GC()
-	}
+	gcOff.Do(func() {
+		if v := os.Getenv("RLS_GCPCT"); v != "" {
+			n, _ := strconv.Atoi(v)
+			debug.SetGCPercent(n)
+		}
+	})
+	runtime.GC()
+	runtime.GC()
 	simkit.Bubble(t, r, func() {
 		start := time.Now()
 		w := &world{r: r, cfg: c, tmp: tmp, seen: map[uint64]bool{}}
@@ -319,7 +328,8 @@ func (w *world) captureLocked(label string) {
 	if w.cfg.Torn {
 		cp.c50 = w.liveFS.CrashClone(vfs.CrashCloneCfg{UnsyncedDataPercent: 40 + w.rng.IntN(21), RNG: w.rng})
 	}
-	cp.dir = readDirTree(w.snapDir)
+	cp.dir = readDirTree(w.snapDir, w.lastDir)
+	w.lastDir = cp.dir
 	w.caps = append(w.caps, cp)
 }
 
@@ -758,6 +768,9 @@ func (w *world) verifyOne(cp *capture, v variant, sp *stepPlan) {
 		// That is Pebble's recovery over MemFS's independent-directory-entry
 		// model, part of the trusted base here, not raftlog behaviour.
 		r.Probe("torn_clone_rejected_by_pebble_open")
+		if os.Getenv("RLS_DEBUG") != "" {
+			fmt.Fprintf(os.Stderr, "DEBUG torn reject at %q during %s: %v\n", cp.label, sp.name, err)
+		}
 		return
 	}
 	if err != nil {
@@ -847,6 +860,7 @@ func (w *world) crashTo(step int, cp *capture, psel int, orig *stepPlan) {
 	_ = os.RemoveAll(w.snapDir)
 	w.liveFS = v.fs.CrashClone(vfs.CrashCloneCfg{UnsyncedDataPercent: 100, RNG: w.rng})
 	w.snapDir = w.newTmpDir()
+	w.lastDir = nil
 	if err := cp.dir.materialise(w.snapDir); err != nil {
 		r.Infra("materialise snapshot dir: %v", err)
 		return
